@@ -98,7 +98,7 @@ def coq_project():
         if fn.endswith(".list"):
             for line in open(os.path.join(d, fn)):
                 line = line.strip()
-                if line and not line.startswith("#") and line not in files:
+                if line and not line.startswith("#") and line not in files and os.path.exists(os.path.join(COQ, line)):
                     files.append(line)
     return write_if_changed(os.path.join(COQ, "_CoqProject"), "-Q . Verif\n" + "\n".join(files) + "\n")
 
@@ -255,42 +255,65 @@ def write_evidence(prop, tier, seed, coverage, assumptions, wall, violations, le
     os.replace(tmp, os.path.join(EVIDENCE, prop + ".json"))
 
 
+def strip_coq_comments(text):
+    """Remove (nested) Coq comments and string literals, keeping line structure."""
+    out = []
+    depth = 0
+    i, n = 0, len(text)
+    in_str = False
+    while i < n:
+        c = text[i]
+        if in_str:
+            if c == '"':
+                in_str = False
+            out.append("\n" if c == "\n" else " ")
+            i += 1
+        elif text.startswith("(*", i):
+            depth += 1
+            i += 2
+        elif depth > 0 and text.startswith("*)", i):
+            depth -= 1
+            i += 2
+        elif depth > 0:
+            out.append("\n" if c == "\n" else " ")
+            i += 1
+        elif c == '"':
+            in_str = True
+            out.append(" ")
+            i += 1
+        else:
+            out.append(c)
+            i += 1
+    return "".join(out)
+
+
+FORBIDDEN_RE = re.compile(r"\b(Admitted|admit|Axiom|Axioms|Parameter|Parameters|Conjecture|Conjectures)\b|Unset\s+Guard|bypass_check|Admit\s+Obligations|type-in-type|impredicative-set|Unset\s+Universe\s+Checking|Unset\s+Positivity")
+SECTION_VAR_RE = re.compile(r"^\s*(Variable|Variables|Hypothesis|Hypotheses|Context)\b")
+
+
 def forbidden_words():
-    """The development must not contain admitted proofs or declared axioms."""
-    rc, out = sh(r"grep -rnE '\b(Admitted|admit|Axiom|Axioms|Parameter|Parameters|Conjecture|Hypothesis|Variable|Abort)\b|Unset Guard|bypass_check|Admit Obligations|type-in-type|impredicative-set' --include=*.v . || true", cwd=COQ)
-    bad = []
-    for line in out.splitlines():
-        m = re.match(r"([^:]+):(\d+):(.*)", line)
-        if not m:
-            continue
-        text = m.group(3)
-        stripped = re.sub(r"\(\*.*?\*\)", "", text)
-        if re.search(r"\b(Variable|Variables|Hypothesis|Hypotheses)\b", stripped) and not re.search(r"\b(Admitted|admit|Axiom|Parameter|Conjecture)\b", stripped):
-            # allowed inside Sections only; verified structurally by check_sections()
-            continue
-        if re.search(r"\b(Admitted|admit|Axiom|Axioms|Parameter|Parameters|Conjecture|Abort)\b|Unset Guard|bypass_check|Admit Obligations|type-in-type|impredicative-set", stripped):
-            bad.append(line)
-    bad += check_sections()
-    return bad
-
-
-def check_sections():
-    """Variable/Hypothesis may only occur between Section ... End."""
+    """The development must not contain admitted proofs, declared axioms or switched-off checks.
+    Comments and string literals are ignored; Variable/Hypothesis/Context only inside a Section."""
     bad = []
     for root, _, files in os.walk(COQ):
-        for fn in files:
+        for fn in sorted(files):
             if not fn.endswith(".v"):
                 continue
-            depth = 0
             p = os.path.join(root, fn)
-            for n, line in enumerate(open(p, errors="replace"), 1):
-                s = re.sub(r"\(\*.*?\*\)", "", line)
-                if re.match(r"\s*Section\s+\w+", s):
+            try:
+                code = strip_coq_comments(open(p, errors="replace").read())
+            except OSError:
+                continue
+            depth = 0
+            for n, line in enumerate(code.splitlines(), 1):
+                if FORBIDDEN_RE.search(line):
+                    bad.append("%s:%d: %s" % (os.path.relpath(p, COQ), n, line.strip()[:160]))
+                if re.match(r"\s*Section\s+\w+", line):
                     depth += 1
-                elif re.match(r"\s*End\s+\w+\s*\.", s) and depth > 0:
+                elif re.match(r"\s*End\s+\w+\s*\.", line) and depth > 0:
                     depth -= 1
-                elif re.match(r"\s*(Variable|Variables|Hypothesis|Hypotheses|Context)\b", s) and depth == 0:
-                    bad.append("%s:%d: %s (outside a Section)" % (os.path.relpath(p, COQ), n, line.strip()))
+                elif SECTION_VAR_RE.match(line) and depth == 0:
+                    bad.append("%s:%d: %s (outside a Section)" % (os.path.relpath(p, COQ), n, line.strip()[:160]))
     return bad
 
 
